@@ -12,9 +12,9 @@ RULE = ('case = (solver, box shape incl. degenerate/one-sided/infinite/None entr
 ASSUMPTIONS = ['None entries mean the documented default +-1e3', 'only evaluation-level claims are made after a mid-run change of ranges',
                'tight=False with clip set is the one illegal mode and is excluded']
 CLASSES = {
-    'ranges': {'quick': 1000, 'thorough': 12000},
-    'initial_points': {'quick': 800, 'thorough': 6000},
-    'wrappers': {'quick': 400, 'thorough': 6000},
+    'ranges': {'quick': 2000, 'thorough': 12000},
+    'initial_points': {'quick': 1600, 'thorough': 8000},
+    'wrappers': {'quick': 800, 'thorough': 6000},
 }
 MIN_EVENTS = {'quick': {'assert:c02': 20000, 'box_rejections': 1000, 'assert:init': 400}}
 CASE_TIMEOUT = 120
